@@ -28,6 +28,8 @@ def run(ctx):
     summ = summ[0]
     drift = 0
     for o in out:
+        if o.get("summary"):
+            continue
         if o.get("viol"):
             ctx.violation(o["viol"], o["detail"], replay={"kind": "c01-row", "row": o.get("replay")})
         elif o.get("drift"):
